@@ -312,7 +312,13 @@ def _dsl_steps(draw, spec_templates, nsubs, params, nenv, min_steps, max_steps, 
         env = None
         if t[0] == "c" and isinstance(spec_templates[t[1]]["env"], int) and draw(st.integers(0, 2)) == 0:
             env = draw(st.integers(0, nenv - 1))
-        steps.append({"step": nm, "t": t, "ref": ref, "param": param, "env": env})
+        # a second (and third) reference to other earlier producers: a component with several references is what makes
+        # the *order* of its references observable
+        more = [j for j in earlier if j != ref]
+        ref2 = draw(st.sampled_from(more)) if ref is not None and more and draw(st.booleans()) else None
+        more3 = [j for j in more if j != ref2]
+        ref3 = draw(st.sampled_from(more3)) if ref2 is not None and more3 and draw(st.booleans()) else None
+        steps.append({"step": nm, "t": t, "ref": ref, "ref2": ref2, "ref3": ref3, "param": param, "env": env})
     return steps
 
 
@@ -344,11 +350,12 @@ def dsl_spec(draw):
         subs.append({"name": "sub%s" % "AB"[j], "steps": steps})
     main = draw(_dsl_steps(templates, nsubs, params, nenv, 1, 4, first_is_stage0_component=True))
     if nsubs and len(main) > 1 and not any(s["t"][0] == "w" for s in main):
-        main[-1].update({"t": ["w", 0], "ref": None, "env": None})
+        main[-1].update({"t": ["w", 0], "ref": None, "ref2": None, "ref3": None, "env": None})
     # a step that became a workflow step cannot be a reference target any more
     for s in main:
-        if s["ref"] is not None and main[s["ref"]]["t"][0] != "c":
-            s["ref"] = None
+        for k in ("ref", "ref2", "ref3"):
+            if s.get(k) is not None and main[s[k]]["t"][0] != "c":
+                s[k] = None
     # user variable files: global keys must be parameters of the entry workflow; stage keys are free
     nfree = draw(st.integers(0, 2))
     stage_keys = [k for k in ["gamma", "delta"][:nfree] if k not in params]
@@ -368,6 +375,10 @@ def _dsl_execute(steps, spec):
                 args["other"] = "<%s>:ref" % steps[s["ref"]]["step"]
             elif s["param"]:
                 args["other"] = "%%(%s)s" % s["param"]
+            if s.get("ref2") is not None:
+                args["extra"] = "<%s>:ref" % steps[s["ref2"]]["step"]
+            if s.get("ref3") is not None:
+                args["more"] = "<%s>:ref" % steps[s["ref3"]]["step"]
             if s["env"] is not None:
                 args["environment"] = copy.deepcopy(spec["envpool"][s["env"]])
         else:
@@ -382,8 +393,9 @@ def _dsl_execute(steps, spec):
 def dsl_documents(spec) -> dict:
     comps = []
     for t in spec["templates"]:
-        params = [{"name": "message"}, {"name": "other", "default": "nothing"}]
-        command = {"executable": "echo", "arguments": "%(message)s other=%(other)s"}
+        params = [{"name": "message"}, {"name": "other", "default": "nothing"}, {"name": "extra", "default": "no-extra"},
+                  {"name": "more", "default": "no-more"}]
+        command = {"executable": "echo", "arguments": "%(message)s other=%(other)s extra=%(extra)s more=%(more)s"}
         if t["env"] == "none":
             command["environment"] = "none"
         elif t["env"] is not None:
